@@ -241,6 +241,14 @@ def case_random(case):
     viols += v
     ncall += 3
     ncmp += 2 * Ssame.size
+    # centres on integer lattice points given as an integer array (np.indices grids, coordinates typed without decimal points)
+    xyz_i = np.rint(xyz * 1.5).astype(int)
+    Si = compute_overlap(basis, xyz_i)
+    Ri, Ai, Ti = gto.overlap_exact(basis, xyz_i.astype(float), with_bound=True)
+    v, _n = compare(Si, Ri, Ai, Ti, "integer-typed coordinates")
+    viols += v
+    ncall += 1
+    ncmp += Si.size
     for x in viols:
         x["shells"] = describe(shells)
         x["atcoords"] = xyz.tolist()
